@@ -64,6 +64,55 @@ EDGES = {
     "same_type_twice": "pub struct R§ { pub a: D§, pub b: Option<D§>, pub c: G§<D§> }",
     "flatten_enum": "pub struct R§ { #[ts(flatten)] pub f: FE§, pub z: i32 }",
 }
+
+# What each root refers to, read off its source above the way the documentation describes dependencies:
+# `named`: user types the root refers to by name (directly, as a generic argument, through `as`, or as a
+# parameter default); `through`: user types it inlines or flattens (their dependencies become the root's,
+# they themselves do not).  Same for the helper items.  Reach.tla closes this relation.
+EDGE_DEPS = {
+    "by_name": (["D"], []),
+    "option": (["D"], []),
+    "vec_box_map": (["D"], []),
+    "tuple_array": (["D"], []),
+    "result_range": (["D", "E"], []),
+    "generic_arg": (["G", "D"], []),
+    "arg_of_arg": (["G", "D"], []),
+    "generic_only": (["G"], []),
+    "param_default": (["D"], []),
+    "inline": ([], ["M"]),
+    "inline_generic": (["D"], ["G"]),
+    "flatten": ([], ["M"]),
+    "as_field": (["D"], []),
+    "as_wrapped": (["D"], []),
+    "type_override": ([], []),
+    "skip": ([], []),
+    "optional": (["D", "E"], []),
+    "self_ref": (["R", "D"], []),
+    "cycle": (["C"], []),
+    "newtype_struct": (["D"], []),
+    "tuple_struct": (["D", "E"], []),
+    "ext_enum": (["D", "E"], []),
+    "int_enum": (["D", "E"], []),
+    "adj_enum": (["D", "E"], []),
+    "unt_enum": (["D", "E"], []),
+    "ext_newtype_inline": ([], ["M"]),
+    "adj_newtype_inline": ([], ["M"]),
+    "int_newtype_inline": ([], ["M"]),
+    "variant_as": (["D"], []),
+    "variant_inline": (["M"], []),
+    "container_as": ([], ["M"]),
+    "two_in_one_file": (["S1", "S2"], []),
+    "inline_then_name": (["M"], ["M"]),
+    "name_then_inline": (["M"], ["M"]),
+    "flatten_then_name": (["M"], ["M"]),
+    "inline_then_default": (["M"], ["M"]),
+    "as_then_name": (["D"], []),
+    "variant_inline_then_name": (["M"], ["M"]),
+    "same_type_twice": (["D", "G"], []),
+    "flatten_enum": ([], ["FE"]),
+}
+HELPER_DEPS = {"D": ([], []), "E": ([], []), "G": ([], []), "M": (["D", "E"], []), "C": (["R", "D"], []), "S1": (["D"], []),
+               "S2": (["E", "S1"], []), "FE": (["D", "E"], [])}
 DPLACES = {"default": "", "dir": '#[ts(export_to = "sub/")]', "file": '#[ts(export_to = "custom/file§.ts")]', "nested": '#[ts(export_to = "a/b/")]',
            "escape": '#[ts(export_to = "../esc§/D§.ts")]', "dotted": '#[ts(export_to = "x.y/d.ts/")]', "same_as_root": '#[ts(export_to = "both§.ts")]',
            "same_dotdot": '#[ts(export_to = "sub§/../both§.ts")]'}
@@ -74,7 +123,7 @@ PLACED = ["by_name", "generic_arg", "inline", "int_enum", "param_default", "two_
 
 
 def case_unit(n, case):
-    g = str(n)
+    g = str(1000 + n)
     dp, rp = DPLACES[case["dplace"]].replace("§", g), RPLACES[case["rplace"]].replace("§", g)
     if case["dplace"] == "same_as_root" or case["rplace"] == "same_as_dep":
         dp = rp = '#[ts(export_to = "both%s.ts")]' % g
@@ -109,7 +158,12 @@ def snapshot(root):
     return out
 
 
-def run_mode(tier, esm, v, stats, prop=PROP, payload="BAD"):
+PRE_EXISTING = {"out/notes.txt": "kept\n", "out/sub/keep.me": "kept too\n", "unrelated/Other.ts": "export type Unrelated = 1;\n"}
+
+
+def export_cases(tier, esm, stats, sandbox):
+    """PREDICT the cases with Graphs.tla, build them, export every root into a fresh directory that
+    holds a few unrelated files.  -> (units, observations, {unit: result}, {unit: tree before})"""
     cfgp = os.path.join(vlib.BUILD, "graphs-cfg.json")
     q = tier == "quick"
     dplaces = list(DPLACES) if not q else ["default", "dir", "file", "escape", "same_as_root", "same_dotdot"]
@@ -127,14 +181,23 @@ def run_mode(tier, esm, v, stats, prop=PROP, payload="BAD"):
     obs = c.observe()
     if c.rejected:
         raise ToolError("graph corpus does not compile: %s" % json.dumps(c.rejected)[:1500])
+    reqs, before = [], {}
+    for u in units:
+        d = os.path.join(sandbox, u.name)
+        os.makedirs(d)
+        for rel, text in PRE_EXISTING.items():
+            os.makedirs(os.path.dirname(os.path.join(d, rel)), exist_ok=True)
+            open(os.path.join(d, rel), "w").write(text)
+        before[u.name] = snapshot(d)
+        reqs.append({"name": u.name, "cwd": d, "dir": DIRS[u.meta["case"]["dir"]].replace("{ABS}", d)})
+    res = {r_["name"]: r_["result"] for r_ in c.export(reqs)}
+    return units, obs, res, before
+
+
+def run_mode(tier, esm, v, stats, prop=PROP, payload="BAD"):
     sandbox = vlib.shm_dir("c03")
     try:
-        reqs = []
-        for u in units:
-            d = os.path.join(sandbox, u.name)
-            os.makedirs(d)
-            reqs.append({"name": u.name, "cwd": d, "dir": DIRS[u.meta["case"]["dir"]].replace("{ABS}", d)})
-        res = {r_["name"]: r_["result"] for r_ in c.export(reqs)}
+        units, obs, res, before = export_cases(tier, esm, stats, sandbox)
         recs, meta = [], []
         for u in units:
             case = u.meta["case"]
@@ -146,7 +209,7 @@ def run_mode(tier, esm, v, stats, prop=PROP, payload="BAD"):
             files, okparse = [], True
             tree = snapshot(d)
             for rel, text in sorted(tree.items()):
-                if not rel.endswith(".ts"):
+                if not rel.endswith(".ts") or rel in PRE_EXISTING:
                     continue
                 try:
                     m = tsparse.parse_module(text)
